@@ -6,12 +6,14 @@ import random
 from harness import common as C
 from harness import remap_engine as R
 
-PLANS = {"quick": [(1, "SUPER_", 2500, 12), (1, "CHR", 500, 12), (2, "SUPER_", 2500, 8), (1, "SUPER_", 800, 3)],
-         "thorough": [(1, "SUPER_", 30000, 12), (1, "CHR", 5000, 12), (2, "SUPER_", 30000, 10), (2, "chr", 5000, 6), (1, "SUPER_", 5000, 3)]}
+PLANS = {"quick": [(1, "SUPER_", 2000, 12), (1, "CHR", 500, 12), (2, "SUPER_", 2000, 8), (1, "SUPER_", 800, 3), (2, "SUPER_", 800, 5, "HAP2")],
+         "thorough": [(1, "SUPER_", 30000, 12), (1, "CHR", 5000, 12), (2, "SUPER_", 30000, 10), (2, "chr", 5000, 6), (1, "SUPER_", 5000, 3),
+                      (2, "SUPER_", 10000, 8, "HAP2")]}
 
 
-def export(run, haps, prefix, n, maxchr, k):
-    cfg = (f'INIT Init\nNEXT Next\nCHECK_DEADLOCK FALSE\nCONSTRAINT Emit\nCONSTANTS NScen = {n} MaxChr = {maxchr} Haps = {haps} Prefix = "{prefix}"\n')
+def export(run, haps, prefix, n, maxchr, k, firsthap="HAP1"):
+    cfg = (f'INIT Init\nNEXT Next\nCHECK_DEADLOCK FALSE\nCONSTRAINT Emit\nCONSTANTS NScen = {n} MaxChr = {maxchr} Haps = {haps} Prefix = "{prefix}" '
+           f'FirstHap = "{firsthap}"\n')
     r = C.tlc_ok(C.tlc("Chromosomes", cfg, run.dir, name=f"chr-{k}", workers=1, timeout=1500, args=["-seed", str(C.seed() + 11 + k)], heap="4g"),
                  "chromosome scenario export")
     objs = C.emitted(r["out"])
@@ -31,8 +33,9 @@ def main(tier, replay=None):
         C.finish(run, "C10", C.report(run, "C10", jr["V"], {1: traces[0]}))
     scen = []
     exports = []
-    for k, (haps, prefix, n, maxchr) in enumerate(PLANS[tier]):
-        objs, r = export(run, haps, prefix, n, maxchr, k)
+    for k, plan in enumerate(PLANS[tier]):
+        haps, prefix, n, maxchr = plan[:4]
+        objs, r = export(run, haps, prefix, n, maxchr, k, plan[4] if len(plan) > 4 else "HAP1")
         for o in objs:
             o["cls"] = f"{haps}-haplotype/{prefix}"
             o["style"] = "plain" if haps == 1 else "hap"
